@@ -39,8 +39,7 @@ impl TimerLockstep {
         TimerRegs { tcr: rd(cpu, TCR), tcsr: rd(cpu, TCSR), tcora: rd(cpu, TCORA), tcorb: rd(cpu, TCORB), tcnt: rd(cpu, TCNT) }
     }
 
-    fn apply_write(&mut self, reg: u32, st: crate::harness::decode::ByteStore) {
-        use crate::harness::decode::ByteStore::*;
+    fn apply_write(&mut self, reg: u32, st: crate::harness::decode::ByteStore, ccr: u8) {
         let mut after = match self.oracle.hyps.first() {
             Some(h) => h.regs,
             None => return,
@@ -52,11 +51,7 @@ impl TimerLockstep {
             TCORB => after.tcorb,
             _ => after.tcnt,
         };
-        let val = match st {
-            Lit(v) => v,
-            BitSet(b) => cur | (1 << b),
-            BitClr(b) => cur & !(1 << b),
-        };
+        let val = st.resolve(cur, ccr);
         match reg {
             TCR => after.tcr = val,
             TCSR => after.tcsr = val,
@@ -78,7 +73,7 @@ impl TimerLockstep {
         if let Some(p) = prev {
             for (a, v) in ext_writes {
                 if is_timer(*a) {
-                    self.apply_write(*a, crate::harness::decode::ByteStore::Lit(*v));
+                    self.apply_write(*a, crate::harness::decode::ByteStore::Lit(*v), 0);
                 }
             }
             if row.state != p.state {
@@ -86,7 +81,7 @@ impl TimerLockstep {
                 if !entry {
                     for (reg, st) in pending_store {
                         // the store executed before its own charge reached the peripherals
-                        self.apply_write(*reg, *st);
+                        self.apply_write(*reg, *st, p.ccr);
                     }
                 }
                 let now = Self::regs(cpu);
